@@ -279,7 +279,7 @@ impl Prop for C03 {
             }
             v
         } else {
-            let shape = *r.pick(&[0u8, 0, 4, 5, 7, 11, 12, 13, 1, 8]);
+            let shape = *r.pick(&[0u8, 0, 4, 5, 7, 11, 12, 13, 1, 8, 2, 3, 6, 9, 14]);
             // f64 mode: signed grid values with exact zeros of either sign, except for the ratio-of-sums views
             let pos = !exact && matches!(k, K::Rsi | K::MyRsi);
             gen_shape(r, shape, suf_len, s_scale, pos)
